@@ -301,8 +301,12 @@ class SimWorld(World):
         sim = e.alloc("Simulator", "caller", None, label="Simulator", key="sim-stub")
         qv = Val(deps=[("param", "is_quick")]) if self.is_quick is None else Val(const=self.is_quick)
         sim.fields["is_quick"] = qv
-        env = {"self": Val(refs=[sim.oid]), "imp": self.init_heap.objs[self.mab_oid].fields["_imp"],
-               "mab": Val(refs=[self.mab_oid])}
+        impv = self.init_heap.objs[self.mab_oid].fields["_imp"]
+        env = {"self": Val(refs=[sim.oid])}
+        # the local that holds the replaced implementor: the name whose attributes feed the constructor
+        for a in list(call.value.args) + [k.value for k in call.value.keywords]:
+            if isinstance(a, ast.Attribute) and isinstance(a.value, ast.Name) and a.value.id != "self":
+                env[a.value.id] = impv
         root = Ev("seq")
         e.out = root.children
         e.frames = [Frame(tb, prog.cls("Simulator"), env)]
